@@ -67,6 +67,10 @@ def workloads(ctx: core.Ctx) -> list[dict]:
         {"name": "resume", "keys": keys, "sessions": [
             {"ops": [["cred", "a", None, 0], ["blob", "x", 2000]], "end": "abandon"},
             {"ops": [["cred", "b", "a", 1], ["blob", "z", 9000], ["content", "d", 9000]], "end": "close"}]},
+        # a version-1 wallet file (fabricated, "setup" sessions are not crash-enumerated) is upgraded on open
+        {"name": "upgrade", "keys": keys, "sessions": [
+            {"ops": [["legacy", ["old1", "old2"], 3000]], "end": "abandon", "setup": True},
+            {"ops": [["blob", "new", 500]], "end": "close"}]},
     ]
     if ctx.thorough:
         w += [
@@ -286,11 +290,13 @@ def oracle(events: list[dict], rc: int, obs: dict | None, stderr: str) -> tuple[
         if pending and pending[0] == table:
             info["in_progress_visible"] = pending[1] in have
 
+    # A database the library cannot open again is reported once, above; its rows are then whatever the failed
+    # open left behind and are not judged a second time.
     rid, rw = obs["raw_identity"], obs["raw_wallet"]
-    if not rid.get("error"):
+    if not rid.get("error") and obs["identity"].get("open") == "ok":
         for t in ("Tokens", "Metadata", "Attestations"):
             compare("file", t, rid.get(t, []))
-    if not rw.get("error"):
+    if not rw.get("error") and obs["wallet"].get("open") == "ok":
         compare("file", "attestations", rw.get("attestations", []))
     oi = obs["identity"]
     if oi.get("read") == "ok":
@@ -486,6 +492,8 @@ def _run(ctx: core.Ctx) -> core.Report:
     _PLAN.clear()
     for wi, w in enumerate(ws):
         for session in range(len(w["sessions"])):
+            if w["sessions"][session].get("setup"):
+                continue
             p = prepare(w, session)
             _PLAN[(wi, session)] = p
             for key, what in p["baseline_violations"]:
@@ -513,6 +521,7 @@ def _run(ctx: core.Ctx) -> core.Report:
     by_site: dict[str, int] = {}
     outcome = {"no_insert_in_progress": 0, "in_progress_record_visible": 0, "in_progress_record_absent": 0}
     states = set()
+    counts: dict[str, dict] = {}
     for r in results:
         w = ws[r["wi"]]
         kind = "+".join(f"{c['kind']}-{c['mode']}" for c in r["chain"])
@@ -525,6 +534,9 @@ def _run(ctx: core.Ctx) -> core.Report:
                 "in_progress_record_visible" if vis else "in_progress_record_absent"] += 1
         states.add(core.digest((w["name"], r["session"], r["state"], r["info"]["acked"], vis)))
         for key, what in r["violations"]:
+            c = counts.setdefault(key, {"executions": 0, "sessions": set()})
+            c["executions"] += 1
+            c["sessions"].add(f"{w['name']}/{r['session']}")
             if key not in violations:
                 where = f"{w['name']} session {r['session']}, killed at " + " then ".join(describe(c) for c in r["chain"])
                 violations[key] = core.Violation(key, f"[{where}; {r['info']['acked']} inserts acknowledged] {what}",
@@ -550,6 +562,8 @@ def _run(ctx: core.Ctx) -> core.Report:
         "executions_by_kind": dict(sorted(by_kind.items())),
         "executions_by_kill_site": dict(sorted(by_site.items())),
         "outcomes": outcome,
+        "violating_executions_by_key": {k: {"executions": c["executions"], "sessions": sorted(c["sessions"])}
+                                        for k, c in sorted(counts.items())},
         "fixture_keys": ws[0]["keys"],
         "crash_model": "process kill (SIGKILL); the kernel keeps everything already written; no power loss",
     }
